@@ -155,7 +155,8 @@ class Spec(PropSpec):
         n = 400 if ctx.tier == "quick" else 3000
         if ctx.escalate:
             n *= 2
-        return [F.gen_hold_script(ctx.rng) for _ in range(n)] + [F.gen_tcp_script(ctx.rng, "hold") for _ in range(n // 5)]
+        return ([F.gen_hold_script(ctx.rng) for _ in range(n)] + [F.gen_tcp_script(ctx.rng, "hold") for _ in range(n // 5)]
+                + [F.gen_mixed_script(ctx.rng) for _ in range(n // 5)])
 
     def to_model(self, case, obs):
         return F.to_model(case, obs)
@@ -166,6 +167,8 @@ class Spec(PropSpec):
     def oracle(self, case, obs):
         if obs.get("panic"):
             return []
+        if case.get("flavour") == "mixed":
+            return []       # outside C08's alphabet: correspondence with the model only
         if case["cfg"].get("tcp"):
             return F.tcp_oracle(case, obs, "hold")
         return c08_oracle(case, obs)
